@@ -1,0 +1,7 @@
+//go:build verif
+
+package consoleui
+
+// VerifFormat exposes the unexported help-text wrapper format to the
+// verification harness (cmd/verifharness, build tag verif).
+func VerifFormat(s string, indent, width int) string { return format(s, indent, width) }
